@@ -6,7 +6,86 @@ Import ListNotations.
 Close Scope Z_scope.
 Open Scope nat_scope.
 
-Definition good (st : list frame) (hmax0 : nat) (r : res (list tok * nat)) : Prop :=
+(* the number of Integer elements at the end of the array (newest first) *)
+Fixpoint lead (l : list bool) : nat :=
+  match l with
+  | true :: l' => S (lead l')
+  | _ => 0
+  end.
+
+(* ReadArray's invariant: integersSeen never exceeds the trailing Integers *)
+Definition fok (fr : frame) : Prop :=
+  match fr with
+  | FArr elems seen => seen <= lead elems
+  | _ => True
+  end.
+
+Definition inv (st : list frame) : Prop := length st <= maxd /\ Forall fok st.
+
+Lemma complete_inv isint st st' :
+  inv st -> complete isint st = Some st' -> inv st'.
+Proof.
+  intros [Hl Hf] H. destruct st as [|fr s2]; [discriminate|].
+  inversion Hf as [|? ? Hfr Hf2]; subst.
+  destruct fr; cbn [complete] in H; inversion H; subst; clear H.
+  - split; [cbn [length] in *; lia|]. constructor; [|exact Hf2].
+    cbn [fok] in *. destruct isint; cbn [lead]; lia.
+  - split; [exact Hl|constructor; assumption].
+  - split; [cbn [length] in *; lia|]. constructor; [destruct isint; exact I|exact Hf2].
+  - split; [exact Hl|constructor; assumption].
+  - split; [exact Hl|constructor; assumption].
+Qed.
+
+Lemma inv_tail fr st : inv (fr :: st) -> inv st.
+Proof. intros [Hl Hf]. inversion Hf; subst. split; [cbn [length] in Hl; lia|assumption]. Qed.
+
+Lemma lead_ge2 elems : 2 <= lead elems -> exists e2, elems = true :: true :: e2.
+Proof.
+  destruct elems as [|[|] [|[|] e2]]; cbn [lead]; intros H; try lia. eauto.
+Qed.
+
+(* one token: no Panic, the invariant is kept *)
+Lemma step_inv st t :
+  inv st ->
+  match step true st t with
+  | Ok (Some st') => inv st'
+  | Ok None => True
+  | Err c => c = Malformed
+  end.
+Proof.
+  intros Hi.
+  assert (Hc : forall b s, inv s ->
+             match complete b s with Some s' => inv s' | None => True end).
+  { intros b s Hs. destruct (complete b s) eqn:E; [eapply complete_inv; eauto|exact I]. }
+  assert (Hopen : forall fr, fok fr ->
+             match (if maxd <=? length st then Err Malformed else Ok (Some (fr :: st)))
+             with Ok (Some st') => inv st' | Ok None => True | Err c => c = Malformed end).
+  { intros fr Hfr. destruct (maxd <=? length st) eqn:E; [reflexivity|].
+    apply Nat.leb_gt in E. destruct Hi as [Hl Hf]. split; [cbn [length]; lia|constructor; assumption]. }
+  destruct st as [|fr s2].
+  - destruct t; cbn [step]; try reflexivity; try (apply (Hc _ [] Hi));
+      try (apply (Hopen (FArr [] 0)); cbn; lia); try (apply (Hopen FKey); exact I).
+  - pose proof (inv_tail _ _ Hi) as Ht.
+    destruct fr as [elems seen| | | |].
+    + destruct t; cbn [step]; try reflexivity;
+        try (apply (Hc _ _ Hi)); try (apply (Hc _ _ Ht));
+        try (apply (Hopen (FArr [] 0)); cbn; lia); try (apply (Hopen FKey); exact I).
+      (* TR *)
+      destruct (2 <=? seen) eqn:E; [|reflexivity]. apply Nat.leb_le in E.
+      destruct Hi as [Hl Hf]. inversion Hf as [|? ? Hfr Hf2]; subst. cbn [fok] in Hfr.
+      destruct (lead_ge2 elems) as [e2 ->]; [lia|].
+      split; [exact Hl|]. constructor; [cbn; lia|exact Hf2].
+    + destruct t; cbn [step]; try reflexivity; try (apply (Hc _ _ Ht)).
+      destruct Hi as [Hl Hf]. inversion Hf; subst. split; [exact Hl|constructor; [exact I|assumption]].
+    + destruct t; cbn [step]; try reflexivity; try (apply (Hc _ _ Hi));
+        try (apply (Hopen (FArr [] 0)); cbn; lia); try (apply (Hopen FKey); exact I).
+    + destruct t; cbn [step]; try reflexivity; try (apply (Hc _ _ Ht));
+        destruct Hi as [Hl Hf]; inversion Hf; subst; split; try exact Hl; constructor; try exact I; assumption.
+    + destruct t; cbn [step]; try reflexivity.
+      destruct Hi as [Hl Hf]. inversion Hf; subst. split; [exact Hl|constructor; [exact I|assumption]].
+Qed.
+
+Definition good (hmax0 : nat) (r : res (list tok * nat)) : Prop :=
   match r with
   | Ok (_, h) => h <= Nat.max maxd hmax0
   | Err c => c = Malformed
@@ -14,46 +93,21 @@ Definition good (st : list frame) (hmax0 : nat) (r : res (list tok * nat)) : Pro
 
 Lemma run_good :
   forall fuel st toks hmax,
-    length toks < fuel -> length st <= maxd ->
-    good st hmax (run fuel st toks hmax).
+    length toks < fuel -> inv st ->
+    good hmax (run true fuel st toks hmax).
 Proof.
-  induction fuel as [|f IH]; intros st toks hmax Hf Hst; [lia|].
-  cbn [run].
-  destruct toks as [|t rest]; [reflexivity|].
-  cbn [length] in Hf.
-  assert (Hrest : length rest < f) by lia.
-  set (h1 := Nat.max hmax (length st)).
-  assert (Hh1 : length st <= maxd -> Nat.max maxd h1 = Nat.max maxd hmax) by (unfold h1; lia).
-  specialize (Hh1 Hst). clearbody h1.
-  (* the recursive calls all have the shape run f st2 rest h1 with a short stack *)
-  assert (Hrec : forall st2, length st2 <= maxd -> good st hmax (run f st2 rest h1)).
-  { intros st2 H2. specialize (IH st2 rest h1 Hrest H2). unfold good in *.
-    destruct (run f st2 rest h1) as [[r h]|c]; [lia|exact IH]. }
-  assert (Hcont : forall st', length st' <= maxd ->
-            good st hmax
-                 match st' with
-                 | [] => Ok (rest, h1)
-                 | FVal :: s2 => run f (FKey :: s2) rest h1
-                 | _ => run f st' rest h1
-                 end).
-  { intros st' H'. destruct st' as [|fr s2]; [unfold good; lia|].
-    destruct fr; apply Hrec; cbn [length] in *; lia. }
-  assert (Hopen : forall fr,
-            good st hmax (if maxd <=? length st then Err Malformed else run f (fr :: st) rest h1)).
-  { intros fr. destruct (maxd <=? length st) eqn:E; [reflexivity|].
-    apply Nat.leb_gt in E. apply Hrec. cbn [length]. lia. }
-  destruct st as [|fr st'].
-  - destruct t; try reflexivity; try (apply (Hcont []); cbn [length]; lia); try apply Hopen.
-  - cbn [length] in Hst.
-    destruct fr; destruct t; try reflexivity;
-      try (apply Hopen);
-      try (apply Hrec; cbn [length]; lia);
-      try (apply (Hcont st'); lia);
-      try (apply (Hcont (FArr :: st')); cbn [length]; lia);
-      try (apply (Hcont (FVal :: st')); cbn [length]; lia).
+  induction fuel as [|f IH]; intros st toks hmax Hf Hi; [lia|].
+  cbn [run]. destruct toks as [|t rest]; [reflexivity|]. cbn [length] in Hf.
+  pose proof (step_inv st t Hi) as Hs.
+  assert (Hl : length st <= maxd) by (destruct Hi; assumption).
+  destruct (step true st t) as [[st'|]|c].
+  - specialize (IH st' rest (Nat.max hmax (length st)) ltac:(lia) Hs).
+    unfold good in *. destruct (run true f st' rest _) as [[r h]|c]; [lia|exact IH].
+  - unfold good. lia.
+  - exact Hs.
 Qed.
 
-(* statement for Prop_C05.v *)
+(* statements for Prop_C05.v *)
 Theorem nest_bounded_lemma :
   forall (toks : list tok),
     match read_object toks with
@@ -61,20 +115,26 @@ Theorem nest_bounded_lemma :
     | Err c => c = Malformed
     end.
 Proof.
-  intros toks. unfold read_object.
-  pose proof (run_good (S (length toks)) [] toks 0 (Nat.lt_succ_diag_r _) (Nat.le_0_l _)) as H.
-  unfold good in H. destruct (run (S (length toks)) [] toks 0) as [[r h]|c]; [lia|exact H].
+  intros toks. unfold read_object, read_object_gen.
+  assert (Hi : inv []) by (split; [cbn; lia|constructor]).
+  pose proof (run_good (S (length toks)) [] toks 0 (Nat.lt_succ_diag_r _) Hi) as H.
+  unfold good in H. destruct (run true (S (length toks)) [] toks 0) as [[r h]|c]; [lia|exact H].
 Qed.
 
-(* the same from any state the scanner can be in, with any sufficient fuel *)
 Theorem nest_bounded_general_lemma :
   forall fuel st toks,
-    length toks < fuel -> length st <= maxd ->
-    match run fuel st toks 0 with
+    length toks < fuel -> length st <= maxd -> Forall fok st ->
+    match run true fuel st toks 0 with
     | Ok (rest, h) => h <= maxd
     | Err c => c = Malformed
     end.
 Proof.
-  intros fuel st toks Hf Hs. pose proof (run_good fuel st toks 0 Hf Hs) as H.
-  unfold good in H. destruct (run fuel st toks 0) as [[r h]|c]; [lia|exact H].
+  intros fuel st toks Hf Hs Hk. pose proof (run_good fuel st toks 0 Hf (conj Hs Hk)) as H.
+  unfold good in H. destruct (run true fuel st toks 0) as [[r h]|c]; [lia|exact H].
 Qed.
+
+(* the variant `integersSeen -= 2`: [ 0 0 612 3 0 R 792 R ] *)
+Theorem integers_seen_refuted_lemma :
+  read_object_gen false [TAO; TI; TI; TI; TI; TI; TR; TI; TR; TAC] = Err Panic /\
+  read_object_gen true [TAO; TI; TI; TI; TI; TI; TR; TI; TR; TAC] = Err Malformed.
+Proof. split; vm_compute; reflexivity. Qed.
